@@ -942,7 +942,12 @@ def mon_C08(blocks):
             if b.ss["us"] != "-":
                 out.append(Violation(b.idx, "session still carries a user after LogOut"))
             rec = b.store.get(_unq(b.ss["id"]))
-            if rec and rec != "undecodable" and rec["us"] != "-":
+            pre = prev_ss(blocks, b)
+            # "If no user is logged into this session, nothing happens": a LogOut() on a session that is user-less IN MEMORY
+            # writes nothing. The stored record can then still carry a user only if an earlier save of this session failed
+            # (and was reported: C11) - the retry corner of DESIGN 13.8, outside C08's histories.
+            did_something = pre is None or pre["us"] != "-"
+            if rec and rec != "undecodable" and rec["us"] != "-" and did_something:
                 out.append(Violation(b.idx, "stored record still carries the user after LogOut"))
         elif k == "logoutuser" and b.ret == "ok":
             uid = _unq(b.tok[1])
@@ -1081,7 +1086,30 @@ def mon_C10_behaviour(blocks):
                     out.append(Violation(b.idx, "after the crash at op %d the session lost acknowledged data: %s vs %s" % (at, b.ss["da"], data)))
             elif d == "unknown-id" and g.alive.get(sid):
                 out.append(Violation(b.idx, "after the crash at op %d the id the client holds is unknown to the store" % at))
+        # an id change that met a store failure and reported it, then a restart: the response WAS sent, so the client holds
+        # whatever id that response left it with - and that id must still reach the session with everything acknowledged before
+        if b.faulted and a.req is not None and b.tok[0] in ("req", "h") and (b.tok[0] == "req" or b.tok[1] in ("login", "regen")):
+            r = a.req
+            v = r.inp
+            sid = g.sid_of.get(v) if v and v != "-" else None
+            if sid is not None and g.alive.get(sid) and b.ret == "err":
+                failed_change[r.tok[1]] = [sid, dict(g.data[sid]), b.idx, False]
+        if b.restart:
+            for ob in failed_change.values():
+                ob[3] = True
+        if b.tok[0] == "req" and b.tok[1] in failed_change and not b.faulted:
+            sid, data, at, armed = failed_change.pop(b.tok[1])
+            if armed and g.alive.get(sid):
+                d, why = verdict(b)
+                if d == "unknown-id":
+                    out.append(Violation(b.idx, "after the failed id change at op %d and a restart the id the client holds (%s) is unknown to the store" % (at, b.inp)))
+                elif d in ("serve", "serve-ref"):
+                    if b.ret != "sess" or not b.ss:
+                        out.append(Violation(b.idx, "after the failed id change at op %d and a restart the id the client holds no longer reaches the session: %s" % (at, b.ret)))
+                    elif not data_matches(b.ss["da"], data):
+                        out.append(Violation(b.idx, "after the failed id change at op %d and a restart the session lost acknowledged data: %s vs %s" % (at, b.ss["da"], data)))
 
+    failed_change = {}
     fold(blocks, visit)
     return out
 
